@@ -80,7 +80,40 @@ def run(F, S, R, tier):
         pv = F.need(REL + "compact_block_verifier::PrefilledVerifier::verify")
         status_table(R, "cmp/prefilled/first", pv, [r"call:.*PrefilledTransaction::index$|call:.*index$"], [r"lit:0$"], {"<": "ERR", "=": "CONT", ">": "ERR"}, what="first prefilled index must be 0", min_sites=1, only_ops=("ne", "eq"))
         status_table(R, "cmp/prefilled/range", pv, [r"call:.*index$"], [r"var:txs_len"], {"<": "CONT", "=": "ERR", ">": "ERR"}, what="last prefilled index must be < txs_len", arith=([], ["op:add"]))
-        status_table(R, "cmp/prefilled/order", pv, [r"var:idx0"], [r"var:idx1"], {"<": "CONT", "=": "ERR", ">": "ERR"}, what="prefilled indexes strictly increase (reconstruct_block subtracts them)")
+        # order: a comparison whose two operands both come from PrefilledTransaction::index() (neither a literal nor a length)
+        # must reject equality and exactly one strict side (idiom: pairwise loop; other idioms - windows(2).all(..), is_sorted_by(..) -
+        # are not recognised and are reported as `no pairwise comparison`, which is a finding to review, never a silent pass)
+        IDX = r"call:.*IndexTransaction(Reader::<'r>)?::index$"
+        err = status_err_blocks(pv)
+        oks = {c.bb for c in pv.calls_to(r"Status::ok$")}
+        pair = []
+        for site in K.cmp_sites(pv):
+            sa, sb = pv.operand_sources(site.a), pv.operand_sources(site.b)
+            if not (K.src_match(sa, [IDX]) and K.src_match(sb, [IDX])):
+                continue
+            if any(x.startswith("lit:") for x in K.arith_of(pv, site.a) + K.arith_of(pv, site.b)) and (("p" not in site.a) or ("p" not in site.b)):
+                continue
+            if K.src_match(sa, [r"call:.*::len$"]) and not K.src_match(sb, [r"call:.*::len$"]) or K.src_match(sb, [r"call:.*::len$"]) and not K.src_match(sa, [r"call:.*::len$"]):
+                continue
+            pair.append(site)
+        R.sites += len(pair)
+        good = False
+        for site in pair:
+            tr = K.cmp_truth(site, False)
+            for (sw, tt, ft) in K.branch_targets(pv, site):
+                def lab(start):
+                    reach, _ = K.reach_with(pv, start, avoid=err, drop_edges=K.same_bool_edges(pv, site.result, start == tt))
+                    return "CONT" if reach & (oks | set(pv.return_blocks())) else "ERR"
+                lt, lf = lab(tt), lab(ft)
+                table = {"<": lt if tr[0] else lf, "=": lt if tr[1] else lf, ">": lt if tr[2] else lf}
+                if table["="] == "ERR" and sorted([table["<"], table[">"]]) == ["CONT", "ERR"]:
+                    good = True
+                    R.ok("cmp/prefilled/order", "prefilled indexes strictly increase: equal neighbours are rejected %s" % K.fmt_table(table), [site.where()])
+                else:
+                    R.bad("cmp/prefilled/order", "neighbouring prefilled indexes are compared with table %s: equal or descending indexes pass, reconstruct_block subtracts them" % K.fmt_table(table), [site.where()])
+                    good = True
+        if not good:
+            R.bad("cmp/prefilled/order", "PrefilledVerifier no longer compares neighbouring prefilled indexes pairwise with a strict order (duplicate indexes make reconstruct_block's `index - filled` arithmetic wrong)", [pv.where()])
         K.must_fail(R, "x", pv) if False else None
         drop = K.assumed_edges(pv, [(r"PrefilledTransactionVec::is_empty$|is_empty$", True)])
         if drop:
